@@ -215,6 +215,14 @@ theorem mulU_nat (a b : Nat) (h : a * b < 18446744073709551616) : mulU (a : Int)
 theorem toUint_nat (a : Nat) (h : (a : Int) < 18446744073709551616) : toUint (a : Int) = (a : Int) :=
   wrapU_of_range _ (by omega) h
 
+theorem bigCmp_eq_zero (a b : Int) : decide (bigCmp a b = 0) = decide (a = b) := by
+  unfold bigCmp
+  by_cases h1 : a < b
+  · simp [h1]; omega
+  · by_cases h2 : a = b
+    · simp [h2]
+    · simp [h1, h2]
+
 theorem bigCmp_ne_zero (a b : Int) : decide (bigCmp a b ≠ 0) = decide (a ≠ b) := by
   unfold bigCmp
   by_cases h1 : a < b
